@@ -67,15 +67,15 @@ CLAIMED = {
     ),
     "C10": dict(
         category="exploration",
-        text="4000 honest databases per quick run (1-8 immutable trios plus the in-progress trio, equal and empty contents included), the certified side built by the real digester and cross-checked against a harness SHA-256/MMR restatement, the digest list served over file:// to a real ClientBuilder client; 0-3 tamperings of the restored directory (flip, truncate, append, delete, replace, swap, copy-over, rotate extensions, foreign files of 7 kinds) and 0-2 of the served list (reorder, add, duplicate, rename keeping order, drop, swap digests or names, flip a digest, conflicting duplicate, empty) plus a coordinated scramble; ranges Full/From/UpTo/inner/single/invalid and allow_missing both ways; then the CLI sequence download_and_verify_digests -> verify_cardano_database -> compute_cardano_database_message -> match_message. Oracle: acceptance judged per file NAME against harness SHA-256, accepted digests reproduce the signed root, every offending name reported on rejection, positive control. Found two genuine defects (repaired).",
-        note="Certificate authenticity assumed (dummy certificate carrying the real signed-message hash); immutable numbers below 100000; SHA-256 collision resistance; certified side built by the real digester and cross-checked.",
+        text="4000 honest databases per quick run (1-8 immutable trios plus the in-progress trio, equal and empty contents included), the certified side built by the real digester and cross-checked against a harness SHA-256/MMR restatement, the digest list served over file:// to a real ClientBuilder client; 0-3 tamperings of the restored directory (flip, truncate, append, delete, file replaced by a directory / dangling link / link to a file with the same or other content, replace, swap, copy-over, rotate extensions, foreign files of 7 kinds) and 0-2 of the served list (reorder, add, duplicate, rename keeping order, drop, swap digests or names, flip a digest, conflicting duplicate, empty) plus a coordinated scramble; ranges Full/From/UpTo/inner/single/invalid and allow_missing both ways; then the CLI sequence download_and_verify_digests -> verify_cardano_database -> compute_cardano_database_message -> match_message. Oracle: acceptance judged per file NAME against harness SHA-256, accepted digests reproduce the signed root, every offending name reported on rejection, positive control. Found three genuine defects (repaired); 3 of 3 seeded changes caught.",
+        note="Certificate authenticity assumed (dummy certificate carrying the real signed-message hash) and the snapshot message's beacon taken as honest (the signers' message does not cover it: a list shifted uniformly together with a lying beacon is outside the statement's quantifier); immutable numbers below 100000; SHA-256 collision resistance; certified side built by the real digester and cross-checked.",
         technique="property-based testing: mutation grammar over honest artefacts + independent per-name acceptance oracle + positive control (proptest)",
         design_ref="DESIGN.md §2 C10",
         engine="p-fs",
     ),
     "C11": dict(
         category="exploration",
-        text="The honest side is the production path: DumbBlockScanner -> real CardanoChainDataImporter -> real sqlite repository; signed messages from the real signable builders; proofs from the real legacy and v2 prover services; responses assembled as the HTTP routes do. Per-run pool of 200 chains, 6 queries per format. The response JSON (incl. the decoded MKMapProof) is rewritten by 1-2 of 32 tamperings and verified against the matching certificate, the other-format certificate or a foreign-chain certificate through the documented client flow (verify(), MessageBuilder::compute_*, match_message). Oracle on acceptance: right entity type, recomputed parts equal the signed parts, block number and offset equal the signed ones, every set proof under the signed root, every reported item field-for-field in the generated chain at or below the beacon; Cardano and Mithril stake distributions by map equality. 10 mutants caught; three leaf-encoding ambiguities are carried as narrow open known findings with witnesses.",
+        text="The honest side is the production path: DumbBlockScanner -> real CardanoChainDataImporter -> real sqlite repository; signed messages from the real signable builders; proofs from the real legacy and v2 prover services; responses assembled as the HTTP routes do. Per-run pool of 200 chains, 6 queries per format. The response JSON (incl. the decoded MKMapProof) is rewritten by 1-2 of 34 tamperings (incl. set-proof lists rebuilt slot by slot from own and foreign proofs, altered duplicates of genuine items placed after / before / at the end) and verified against the matching certificate, the other-format certificate or a foreign-chain certificate through the documented client flow (verify(), MessageBuilder::compute_*, match_message). Oracle on acceptance: right entity type, recomputed parts equal the signed parts, block number and offset equal the signed ones, every set proof under the signed root, every reported item field-for-field in the generated chain at or below the beacon; Cardano and Mithril stake distributions by map equality. 10 mutants caught; three leaf-encoding ambiguities are carried as narrow open known findings with witnesses.",
         note="Certificate authenticity assumed (C03); hash collision resistance; MMR internal-node confusions belong to C09. Known findings are matched by exact re-cut classes and steered around (excluded_known).",
         technique="property-based testing: response tampering grammar over honest prover output + ground-truth oracle (proptest)",
         design_ref="DESIGN.md §2 C11",
@@ -107,7 +107,7 @@ CLAIMED = {
     ),
     "C13": dict(
         category="exploration",
-        text="1000 generated histories per quick run (<= 25 operations: extend the chain, switch to a fork chosen by selector - shallow, anywhere, below the highest stored block, at a block-range boundary +-1, at / before the first stored block - import up to a target derived like the callers do (both signing configurations, preloader, tip, same again) optionally with a chain switch DURING the import and / or a store failure at the j-th mutating call followed by a restart, restart) against the real CardanoChainDataImporter + CardanoBlockScanner / ChainReaderBlockStreamer + the signer's sqlite repository on disk + both signable builders, fed by SimNode, a chain-sync follower model validated first against the repository's FakeChainReader scenarios. Oracle after every successful import: stored blocks, transactions and both block-range-root tables equal (1) an independent harness recomputation from the model chain and (2) a fresh database that imported the canonical chain once; Merkle roots of both signable builders at the target and at earlier aligned beacons equal the fresh ones. Found two genuine defects (repaired) and two that are open known findings with witnesses.",
+        text="1000 generated histories per quick run (<= 25 operations: extend the chain, switch to a fork chosen by selector - shallow, anywhere, below the highest stored block, at a block-range boundary +-1, at / before the first stored block - import up to a target derived like the callers do (both signing configurations, preloader, tip, same again) optionally with a chain switch DURING the import and / or a store failure at the j-th mutating call followed by a restart, restart) against both production wirings - the signer's (chunking + pruning decorators) and the aggregator's (bare importer) - of the real CardanoChainDataImporter + CardanoBlockScanner / ChainReaderBlockStreamer + the signer's sqlite repository on disk + both signable builders, fed by SimNode, a chain-sync follower model validated first against the repository's FakeChainReader scenarios. Oracle after every successful import: stored blocks, transactions and both block-range-root tables equal (1) an independent harness recomputation from the model chain and (2) a fresh database that imported the canonical chain once; Merkle roots of both signable builders at the target and at earlier aligned beacons equal the fresh ones. Found two genuine defects (repaired) and two that are open known findings with witnesses; 3 of 3 seeded changes caught (one only after the bare wiring was added).",
         note="Trusted: MKTree / MKMap for the root recomputation; sqlite transaction atomicity; chain switches never shorten the chain; with pruning no switch deeper than the blocks kept. Targets are non-decreasing and <= tip (callers' rule); the two open findings are steered around except through the `Same` selector.",
         technique="model-based stateful property-based testing: generated roll-back / restart / fault histories on the real importer, chain-sync environment model, from-scratch differential oracle (proptest)",
         design_ref="DESIGN.md §2 C13",
